@@ -7,6 +7,7 @@ import bvsym as sx
 from bvsym import core
 import simnet
 from simnet import Kernel, Net, accept_for
+from .envpatch import EnvPatch
 from .common import Obligation, cover, quiet_logging, server_frame
 
 PROPERTY = "C09"
@@ -57,8 +58,8 @@ def h_val(field, n, offered=0, at=0, mode=None):
     """_validate with one symbolic field of length n, the others correct"""
     quiet_logging()
     import websocket._handshake as HS
-    real = (HS.hashlib, HS.hmac, HS.base64encode)
-    HS.hashlib, HS.hmac, HS.base64encode = FakeHashlib, FakeHmac, (lambda b: b + b"\n")
+    ep = EnvPatch()
+    ep.handshake_crypto(sha1=FakeHashlib.sha1, compare_digest=FakeHmac.compare_digest, b64=lambda b: b)
     try:
         key = sx.sym_str("key", 3) if field in ("accept", "key") else "abc"
         if field in ("accept", "key"):
@@ -99,7 +100,7 @@ def h_val(field, n, offered=0, at=0, mode=None):
             sx.require(sub == headers["sec-websocket-protocol"].lower(), "selected subprotocol reported", field=field)
         cover("accepted" if ok else "rejected")
     finally:
-        HS.hashlib, HS.hmac, HS.base64encode = real
+        ep.restore()
 
 
 # ------------------------------------------------------------------------------------------------ H-conn
